@@ -81,9 +81,16 @@ func c09run(r *kernel.Run, strategy int, seed uint64) {
 		}
 		groups = append(groups, g)
 	}
-	// sender announces (creates its chain key) and seals a drawn number of warm-up messages; the receiver registers
+	// sender announces (creates its chain key) and seals a drawn number of warm-up messages; the receiver registers.
+	// In lazy mode the chain key does not exist yet when the concurrent tasks start: every sender task first asks
+	// for a shareable chain key itself, so the creation of the chain key races with the other tasks.
+	lazy := r.Choose(3) == 2
 	base := make([]uint64, ngroups)
+	firstAnn := make([][]byte, ngroups)
 	for gi, g := range groups {
+		if lazy {
+			continue
+		}
 		rmd, _ := R.md(g)
 		smd, _ := S.md(g)
 		ann, err := S.st.GetShareableChainKey(ctx, g, rmd.Member())
@@ -104,7 +111,7 @@ func c09run(r *kernel.Run, strategy int, seed uint64) {
 		}
 		base[gi] = uint64(warm)
 	}
-	r.Logf("concurrent sends: grouptype=%d tasks=%d msgs/task=%d groups=%d reader=%v base=%v strategy=%d", kind, ntasks, nmsgs, ngroups, withReader, base, strategy)
+	r.Logf("concurrent sends: grouptype=%d tasks=%d msgs/task=%d groups=%d reader=%v base=%v lazy=%v strategy=%d", kind, ntasks, nmsgs, ngroups, withReader, base, lazy, strategy)
 
 	// chain-key writes observed at the disk seam: counters per (group, device) key must never decrease
 	var hmu sync.Mutex
@@ -123,6 +130,19 @@ func c09run(r *kernel.Run, strategy int, seed uint64) {
 	for tk := 0; tk < ntasks; tk++ {
 		tk := tk
 		s.Go(fmt.Sprintf("sender%d", tk), func() {
+			if lazy {
+				for gi, g := range groups {
+					rmd, _ := R.md(g)
+					ann, err := S.st.GetShareableChainKey(ctx, g, rmd.Member())
+					hmu.Lock()
+					if err != nil {
+						regress = fmt.Sprintf("GetShareableChainKey failed: %v", err)
+					} else if firstAnn[gi] == nil {
+						firstAnn[gi] = ann // the first announcement handed out (taken before any message of that group was sealed)
+					}
+					hmu.Unlock()
+				}
+			}
 			for i := 0; i < nmsgs; i++ {
 				gi := (tk + i) % ngroups
 				tag := []byte(fmt.Sprintf("t%d-m%d", tk, i))
@@ -201,6 +221,20 @@ func c09run(r *kernel.Run, strategy int, seed uint64) {
 	if len(out) != ntasks*nmsgs {
 		r.Violate("count", "missing-envelopes", "%d envelopes returned, %d expected", len(out), ntasks*nmsgs)
 		return
+	}
+	if lazy {
+		r.Probe("lazy_chain_key_creation")
+		for gi, g := range groups {
+			smd, _ := S.md(g)
+			if firstAnn[gi] == nil {
+				r.Violate("count", "no-announcement", "no announcement was returned for group %d", gi)
+				return
+			}
+			if err := R.st.RegisterChainKey(ctx, g, smd.Device(), firstAnn[gi]); err != nil {
+				r.Violate("open", "announcement-rejected", "the receiver cannot register the first announcement handed out: %v", err)
+				return
+			}
+		}
 	}
 	// counters: pairwise distinct, gap-free {base+1..base+n} per group; every envelope opens at the receiver
 	perGroup := map[int][]uint64{}
